@@ -314,8 +314,11 @@ CHECKS = {
              "a fault in a body run from a later statement must list that statement under VIA, and inserting 1..3 "
              "unrelated statements before the fault must move the line by exactly that much and keep the column. Syntax "
              "faults are Mutate.tla scripts (delete/duplicate/swap/replace a token) confined to one statement: the parse "
-             "error must lie in that statement or at the first token after it.",
-        design_ref="DESIGN.md §3.4, §4.3, §4.13, §5/C17",
+             "error must lie in that statement or at the first token after it. Families added after two seeding rounds "
+             "and a coverage pass: reduce over late-failing targets, function bodies met at a later call, a module "
+             "instance as an operand, callbacks whose answers map cannot use, failing annotated lets; a failure without "
+             "a planted fault takes its statement from VM.tla's blame.",
+        design_ref="DESIGN.md §3.4, §4.3, §4.13, §5/C17, §11.5, §11.8",
         note="Trusted: TLC, vp/render.py and the line layout in vp/c17.py, the harness. Element positions inside list values "
              "are abstracted to the list's position in VM.tla, so the Blame verdict is taken on the real diagnostic, not on "
              "the model's. Open finding: positions inside @{...} are relative to the template.",
